@@ -19,4 +19,25 @@ def dumpHash {α : Type} (c : Compiled α) : List (List α) × List α := (c.tab
 def dumpOrdered {α : Type} (le : α → α → Bool) (c : Compiled α) : List (List α) × List α :=
   (c.tables, c.unexports.mergeSort le)
 
+/-! ### name-keyed tables
+
+`Table<K, V>` (src/table.rs) wraps a `BTreeMap<&str, V>`: `insert` puts the value at its key's
+place in key order, replacing an earlier value of the same key; iteration, `Serialize` and every
+listing follow key order. -/
+
+/-- `Table::insert` / `BTreeMap::insert` on the sorted association list -/
+def tinsert {α : Type} (k : String) (v : α) : List (String × α) → List (String × α)
+  | [] => [(k, v)]
+  | (k', v') :: rest =>
+    if k = k' then (k, v) :: rest
+    else if k < k' then (k, v) :: (k', v') :: rest
+    else (k', v') :: tinsert k v rest
+
+/-- the table after inserting the definitions in the order they are met -/
+def build {α : Type} (defs : List (String × α)) : List (String × α) :=
+  defs.foldl (fun t d => tinsert d.1 d.2 t) []
+
+/-- what a listing or the dump shows of a table: the keys in iteration order -/
+def keysOf {α : Type} (t : List (String × α)) : List String := t.map Prod.fst
+
 end Just.Determinism
